@@ -207,12 +207,13 @@ impl Proxy {
     }
 
     pub fn snap(&self) -> Snap {
-        let al = cw1_whitelist::contract::query_admin_list(self.w.deps()).unwrap_or(
-            cw1_whitelist::msg::AdminListResponse {
-                admins: vec![],
-                mutable: false,
-            },
-        );
+        // reads go through the `query` entry point of the contract under test
+        let al: cw1_whitelist::msg::AdminListResponse = match self.kind {
+            Kind::Whitelist => self.w.q(|d, e| cw1_whitelist::contract::query(d, e, cw1_whitelist::msg::QueryMsg::AdminList {}).and_then(|b| cosmwasm_std::from_json(&b))),
+            Kind::Subkeys => self.w.q(|d, e| cw1_subkeys::contract::query(d, e, cw1_subkeys::msg::QueryMsg::AdminList {}).and_then(|b| cosmwasm_std::from_json(&b))),
+        }
+        .ok()
+        .unwrap_or(cw1_whitelist::msg::AdminListResponse { admins: vec![], mutable: false });
         let mut s = Snap {
             admins: al.admins,
             mutable: al.mutable,
@@ -230,7 +231,11 @@ impl Proxy {
                         },
                     );
                 }
-                if let Ok(x) = cw1_subkeys::contract::query_allowance(self.w.deps(), self.w.env(), a.clone()) {
+                let viewed: Option<cw1_subkeys::state::Allowance> = self
+                    .w
+                    .q(|d, e| cw1_subkeys::contract::query(d, e, cw1_subkeys::msg::QueryMsg::Allowance { spender: a.clone() }).and_then(|b| cosmwasm_std::from_json(&b)))
+                    .ok();
+                if let Some(x) = viewed {
                     s.view.insert(
                         a.clone(),
                         Allow {
